@@ -520,6 +520,10 @@ PROPS["C07"] = {
            "ContentType::try_from", "HandshakeType::try_from"],
           "verbatim text of the nine decoders and two TryFrom impls (message structs copied from the source) against an assumed contract of bytes::Bytes that carries the crate's documented panic conditions as preconditions: for every buffer content and length every get_uN / copy_to_slice / split_to / advance / index is within the remaining data, no arithmetic overflows, the cipher-suite and certificate loops terminate",
           min_verified=15),
+        V("RTP header extension get/set on a block of ANY content and length (Verus)", "rtp_ext_total", "quick", "proof",
+          ["RtpHeader::get_extension", "RtpHeader::set_extension", "RtpHeaderExtension::new"],
+          "verbatim get_extension (one-byte 0xBEDE and two-byte 0x1000 walkers) and set_extension (rebuild of a one-byte block) on an arbitrary received block: every index, Bytes::slice range and extend_from_slice source range is in bounds, no arithmetic overflows, all three loops terminate. set_extension is taken on blocks RtpHeader::parse can produce (at most 65535 words)",
+          min_verified=8),
     ],
 }
 
